@@ -167,3 +167,23 @@ META["C07"] = dict(
     note="Trusts: WgpuVertex.formatInfo transcription; Ext.ReprC is not built: byte values of offsets / stride come from rustc in the batch harness.",
     technique="Lean 4 proof + decidable spec on real output + the real wgpu-core check_stage as oracle",
 )
+META["C10"] = dict(
+    text="Kernel-checked C10_leaf (for every glam-representable member type -- f32/i32/u32 scalars and vectors, square float matrices, fixed arrays of those at any depth -- the (alignment, size) "
+         "encase 0.10 assigns to the emitted Rust type equals the WGSL (AlignOf, SizeOf): Ext.Encase vs Ext.WgslLayout), C10_struct_algorithm and C10_offsets_partial (with natural naga "
+         "offsets the derive's offsets/size are the WGSL ones). The check ALSO writes every emitted ShaderType struct through the REAL encase::StorageBuffer with sentinel values and compares "
+         "byte length and field offsets with (a) the Lean transcription -- agreement on every struct validates Ext.Encase -- and (b) naga's WGSL layout. Open known findings: @size/@align not "
+         "forwarded, f64 unsupported by encase, builtin member dropped from dual-use structs.",
+    design_ref="DESIGN.md section 5 (C10)",
+    note="Trusts: Ext.Encase / Ext.WgslLayout transcriptions (validated per struct against real encase bytes and per module against naga).",
+    technique="Lean 4 proof relative to transcriptions of encase and WGSL layout + real encase bytes as oracle",
+)
+META["C01"] = dict(
+    text="Partial by nature: 'rustc accepts' is decided by rustc. Kernel-checked fragments of the emitted program's static semantics: C01_no_keyword_idents (on the prettyplease path no "
+         "WGSL-derived identifier is a Rust keyword when Ok is returned), C01_entry_consts_distinct, C01_group_items_distinct, C01_struct_items_distinct (no generated item is defined twice "
+         "under the stated injectivity premises), C01_nested_struct_emitted (struct-typed fields resolve). The whole output is tied to the model section by section, and the check compiles the "
+         "real generated modules (7 option sets quick, 13 thorough) with rustc against the real wgpu 24 / bytemuck / encase / glam / serde, recognising the permitted failures by their "
+         "const-evaluation messages. Six classes of rejected modules are recorded findings; any other rejection is a violation.",
+    design_ref="DESIGN.md section 5 (C01)",
+    note="Trusts: rustc; nalgebra is not available offline (Nalgebra output is never compiled).",
+    technique="Lean 4 proof of static-semantics fragments + rustc as oracle on batches of real generated modules + whole-output correspondence",
+)
